@@ -72,6 +72,34 @@ Theorem C11_generated_truncate_ratio : forall x v, x <> [] ->
 Proof. exact gen_truncate_ratio. Qed.
 Print Assumptions C11_generated_truncate_ratio.
 
+(** ---- the bodies of the Weaver methods, REGENERATED from weaver.py as terms of the glue language (Gen/WeaverGlue.v:
+     weaver_methods), mean — under the interpreter of Model/GlueSem.v — what the hand-written [step] and query functions say ---- *)
+From TW Require Import Model.GlueSem Gen.WeaverGlue Proofs.GlueProofs.
+Open Scope string_scope.
+Theorem C11_glue_slice_by_index : forall s start stop step xs ys,
+  let r := call_method weaver_methods None "slice_by_index" [("start", VInt start); ("stop", optZ stop); ("step", VInt step)] s xs ys in
+  g_s (fst r) = s /\ outcome_pair (snd r) = slice_by_index s start stop step.
+Proof. exact glue_slice_by_index. Qed.
+Print Assumptions C11_glue_slice_by_index.
+
+Theorem C11_glue_slice_by_value : forall s start stop step xs ys,
+  let r := call_method weaver_methods None "slice_by_value" [("start", optQ start); ("stop", optQ stop); ("step", VInt step)] s xs ys in
+  g_s (fst r) = s /\ outcome_pair (snd r) = slice_by_value s start stop step.
+Proof. exact glue_slice_by_value. Qed.
+Print Assumptions C11_glue_slice_by_value.
+
+(** omitted arguments take the defaults written in the signature *)
+Theorem C11_glue_slice_defaults : forall s xs ys,
+  call_method weaver_methods None "slice_by_index" [] s xs ys =
+  call_method weaver_methods None "slice_by_index" [("start", VInt 0); ("stop", VNoneV); ("step", VInt 1)] s xs ys /\
+  call_method weaver_methods None "slice_by_value" [] s xs ys =
+  call_method weaver_methods None "slice_by_value" [("start", VNoneV); ("stop", VNoneV); ("step", VInt 1)] s xs ys /\
+  call_method weaver_methods (Some (OTruncIdx 0 None)) "truncate_by_index" [] s xs ys =
+  call_method weaver_methods (Some (OTruncIdx 0 None)) "truncate_by_index" (params_of (OTruncIdx 0 None)) s xs ys.
+Proof. exact glue_slice_defaults. Qed.
+Print Assumptions C11_glue_slice_defaults.
+Close Scope string_scope.
+
 Example C11_example :
   match truncate [qz 0; qz 1; qz 2; qz 3; qz 4] [qz 5; qz 6; qz 7; qz 8; qz 9] (qf 3 2) (qf 5 2) false false with
   | Ok r => list_eqb Qc_eqb (fst r) [qz 1; qz 2; qz 3] && list_eqb Qc_eqb (snd r) [qz 6; qz 7; qz 8]
